@@ -34,6 +34,10 @@ func indexStr(s, sub []value) int {
 
 func init() {
 	delete(externals, "unicode/utf8.DecodeRuneInString")
+	delete(externals, "strconv.Atoi")
+	delete(externals, "strings.EqualFold")
+	delete(externals, "strings.ToLower")
+	delete(externals, "strings.Replace")
 	externals["internal/bytealg.IndexByteString"] = func(fr *frame, args []value) value {
 		s := strBytes(args[0])
 		for i := range s {
@@ -95,6 +99,8 @@ func init() {
 		}
 		return mkStr(out)
 	}
+	externals["internal/stringslite.Clone"] = func(fr *frame, args []value) value { return args[0] }
+	externals["strings.Clone"] = externals["internal/stringslite.Clone"]
 	externals["strings.HasPrefix"] = func(fr *frame, args []value) value {
 		s, p := strBytes(args[0]), strBytes(args[1])
 		return len(s) >= len(p) && matchAt(s, p, 0)
